@@ -133,7 +133,7 @@ def build() -> Check:
         ck.ob("R2.decision-implies-effect", construct, not bad2, (bad2[0][0] + ": " + trace_sig(bad2[0][1])) if bad2 else "", cell=st)
         if st == "PENDING":
             ck.ob("R3.pending-suspends", construct, not bad3, (bad3[0][0] + ": " + trace_sig(bad3[0][1])) if bad3 else "", cell=st)
-    ck.floor("strategy_consultations", n_strat, 40)
+    ck.floor("strategy_consultations", n_strat, 8)
 
     # step logger attempt == strategy attempt (same def-use): execute() computes attempt once
     ex = ci.methods.get("execute")
